@@ -120,6 +120,13 @@ def run(tier, seed, t0):
             scenario(e3, ni, nr, nm)
         except _e3.ENC_ERRORS as ex:
             e3.error(nm, "MIR->SMT encoding of RecorderOnceCell::{set,try_load}", ex)
+    # once installed, the global recorder is what a thread without a live local recorder reaches — also a thread that had local scopes
+    # open before and during the installation (C01's scenario program and native replay)
+    try:
+        import c01
+        c01.global_late_scenario(e3)
+    except _e3.ENC_ERRORS as ex:
+        e3.error("c01_global_installed_late", "MIR->SMT encoding of metrics::recorder scoping", ex)
     obs = list(e3.res.obligations)
     obs += kani.run_group("core", HARNESSES, tier, hooks=True)
     funcs = sorted(e3.functions) + FUNCS_E1
@@ -132,7 +139,7 @@ def replay(path):
     if path.endswith(".vals"):
         return _kprop.replay(path)
     import replay_e3
-    status, out = replay_e3.run("c02", path)
+    status, out = replay_e3.run("c01" if "/C01/" in path else "c02", path)
     print(status)
     print(out)
     return 1 if status == "reproduced" else 0
